@@ -41,7 +41,7 @@ static pair_t PAIRS[] = {
 };
 #define NPAIRS ((int)(sizeof PAIRS / sizeof *PAIRS))
 
-static const char *PAYLOADS[2] = { "{\"sub\":\"alice\",\"adm\":false}", "{\"sub\":\"mallory\",\"adm\":true}" };
+static const char *PAYLOADS[2] = { "{\"sub\":\"alice\",\"adm\":false}", "{ \"sub\" :\"mallory\", \"adm\":true ,\"n\": 1.50 }" };
 
 static int pair_active(const pair_t *p, int provider)
 {
@@ -54,8 +54,13 @@ static int pair_active(const pair_t *p, int provider)
 
 static char *ref_token(const pair_t *p, jwt_alg_t halg, jwt_alg_t signalg, const char *payload)
 {
-	char hdr[64];
-	snprintf(hdr, sizeof hdr, "{\"alg\":\"%s\",\"typ\":\"JWT\"}", tok_alg_names[halg]);
+	char hdr[96];
+	/* the second payload travels with a header that is valid JSON but not in libjwt's own canonical form (member order,
+	 * white space, an escaped character): what is authenticated is the raw text, never a re-encoding */
+	if (payload == PAYLOADS[1])
+		snprintf(hdr, sizeof hdr, "{ \"typ\" : \"J\\u0057T\",\n  \"alg\":\"%s\" }", tok_alg_names[halg]);
+	else
+		snprintf(hdr, sizeof hdr, "{\"alg\":\"%s\",\"typ\":\"JWT\"}", tok_alg_names[halg]);
 	char *input = tok_signing_input(hdr, payload), *t = NULL;
 	if (!p->vk) {
 		unsigned char mac[64];
@@ -785,6 +790,24 @@ static void enumerate_c12(void)
 			continue;
 		static const char *prov[2] = { "openssl", "gnutls" };
 		char *tok[2];
+		/* keys loaded under the other provider must be usable under both: reload this pair's key sets under GnuTLS */
+		if (i % 2 == 1) {
+			char *pj = p->vk ? vk_jwk_text(p->vk, 0, p->vk->pss ? tok_alg_names[p->alg] : NULL, NULL) : vk_oct_jwk(p->oct, p->octlen, NULL, NULL);
+			char *sj = p->vk ? vk_jwk_text(p->vk, 1, p->vk->pss ? tok_alg_names[p->alg] : NULL, NULL) : vk_oct_jwk(p->oct, p->octlen, NULL, NULL);
+			jwt_set_crypto_ops("gnutls");
+			jwk_set_t *np = jwks_create(pj), *ns = jwks_create(sj);
+			jwt_set_crypto_ops("openssl");
+			if (!np || !ns || jwks_item_error(jwks_item_get(np, 0)) || jwks_item_error(jwks_item_get(ns, 0)))
+				vf_violation("providers|key-load-under-gnutls-fails", "%s cannot be imported while GnuTLS is the provider", p->keyname);
+			else {
+				jwks_free(p->pub);
+				jwks_free(p->priv);
+				p->pub = np;
+				p->priv = ns;
+			}
+			free(pj);
+			free(sj);
+		}
 		for (int a = 0; a < 2; a++) {
 			jwt_set_crypto_ops(prov[a]);
 			rc_rng_reseed(12000 + i);
